@@ -28,7 +28,7 @@ SPEC = dict(
              'returned by the model of mnemonic_new() passes mnemonic_is_valid (derivations are pure functions; wallet key = private key). '
              'The cryptographic primitives (X25519, Ed25519<->Curve25519 maps, AES-256-CTR, SHA-256, Ed25519 sign/verify, HMAC-SHA512, PBKDF2) are '
              'NOT verified: they are parameters and their algebraic laws (DH commutativity, CTR involution + length, signature correctness, digest '
-             'lengths) are hypotheses, shown satisfiable by toy primitives. Rejection of altered message/key/signature (unforgeability) is only '
+             'lengths) are hypotheses, shown satisfiable by toy primitives (CTR involution is alternatively derived from "output = input xor key stream"). Rejection of altered message/key/signature (unforgeability) is only '
              'tested. The real library is exercised with both real peers and against an independent libsodium/pycryptodome transcription.',
         level_note='Trusted: Lean kernel (propext, Classical.choice, Quot.sound); Model/Adnl.lean as a hand transcription of ciphers.py / signature.py / '
                    'keys.py (tied by sampled correspondence on real intermediate values); the stated laws of the primitives (tested on every case, '
